@@ -90,6 +90,10 @@ def read_model(system, model_path, name=None):
 
     kwargs = {"name": name} if name else {}
     path = pathlib.Path(model_path)
+    if not path.exists():
+        # Fail before the reader creates (and renames) any model
+        raise FileNotFoundError(
+            "[Errno 2] No such file or directory: '%s'" % path)
     params = _get_model_metadata(path)
 
     if params:
